@@ -186,6 +186,7 @@ def _kw_cycle(i, seed, **base):
     kw.setdefault("constraints", ["none", "agg", "agg", "3ph", "removed", "3ph", "agg"][i % 7])
     kw.setdefault("evse_kinds", [r.choice(KINDS) for _ in range(3)])
     kw.setdefault("store_hist", bool(i % 3))
+    kw.setdefault("est_seed", seed * 31 + i)
     return kw
 
 
@@ -244,7 +245,13 @@ def check_spec_replay(prop, tier, seed, owners, overrides, n_quick, n_thorough, 
         judge(rep, prop, b, kw, d, owners)
     for b in allb[:1] + bhvs[:1]:
         rep.sample(b)
+    from .acnsim_trace import trace_validation
+    trace_validation(rep, prop, owners, seed + hash_prop(prop), 60 if tier == "quick" else 1500)
     return rep
+
+
+def hash_prop(prop):
+    return int(prop[1:]) * 7
 
 
 def check_C01(tier, seed):
@@ -327,6 +334,8 @@ def check_C09(tier, seed):
                      "against their interruption-free twin" % (len(allb), len(sub)))
     for b in allb[:2]:
         rep.sample(b)
+    from .acnsim_trace import trace_validation
+    trace_validation(rep, "C09", {"C09"}, seed + 63, 60 if tier == "quick" else 1500)
     return rep.finish()
 
 
